@@ -17,17 +17,18 @@ import OVM.IO.Ovmb.RoundTripWriterLayout
   configuration that accepts its faces and cells as written (`Accepts`; every polyhedral read without topology
   check does, `writer_roundtrip_poly`), `decode cfg (encode F) = .ok F`: same counts, positions bit for bit,
   edge / face / cell definitions handle for handle, properties with kind, name, type, default and values, in
-  directory order.  Hypotheses besides `WFFile`: the file is shorter than 2^64 bytes (`SizeOk`, the width of the
-  chunk length field) and `ModeFits` — fixed valence × count < 2^32 — which holds up to 16 843 009 faces / cells
-  and is *necessary* (`writer_roundtrip_limit`: beyond it the reader rejects the writer's own file; finding
-  O2-topo-valence-product-overflow).  Lemmas: OVM/IO/Ovmb/RoundTrip{Frame,Chunks,Trunc,States,Writer,Limits}.lean.
+  directory order.  Hypothesis besides `WFFile` and `Accepts`: the file is shorter than 2^64 bytes (`SizeOk`, the
+  width of the chunk length field; `WFFile` bounds every count by 2^32 but not their product with string
+  lengths).  Until /repo commit 5071116 the reader multiplied `valence * count` of a fixed-valence TOPO chunk in
+  32 bits and rejected the writer's own file beyond 2^32 / valence faces (finding O2-topo-valence-product-overflow,
+  found by this proof; fixed, the model follows the fix, no such hypothesis remains).
+  Lemmas: OVM/IO/Ovmb/RoundTrip{Frame,Chunks,Trunc,States,Writer}.lean.
   **Every permitted encoding (end to end)**: `permitted_roundtrip` — for every well-formed `F`, every byte string
   `bytes` with `Encodes bytes F` (any valid `Layout`: spans, widths, offsets, fixed / variable valence, exact float
   vertices, skippable chunks, paddings ≤ 255, file version, chunk order) and every polyhedral read without
-  topology check, `decode cfg bytes = .ok F`.  This is the former placeholder `RoundtripStatement` with two size
-  hypotheses added: `bytes.length < 2^64`, and at most 16 843 009 faces and cells — `ValidLayout` does not bound
-  `valence * count` of a fixed-valence chunk, which the reader multiplies in 32 bits, so the statement without
-  the bound is false of the model (and of the code) for larger meshes, see `writer_roundtrip_limit`.
+  topology check, `decode cfg bytes = .ok F`.  This is the former placeholder `RoundtripStatement`; its hypotheses
+  are: `WFFile F`, `Encodes bytes F`, polyhedral target without topology check, and `bytes.length < 2^64` (a
+  skippable chunk's payload is otherwise unbounded and would not fit the 64-bit chunk length field).
   Lemmas: OVM/IO/Ovmb/RoundTrip{LayoutBase,Layout,Permitted}.lean (`stOf`, `CurOk`, `lstep_*`, `layout_run`).
   **The writer's bytes conform to the format description**: `writer_bytes_permitted` — for every well-formed `F`,
   `Encodes (encode F) F` (`ValidLayout (writerLayout F) F` and `encodeWith (writerLayout F) F = encode F`;
@@ -41,18 +42,19 @@ import OVM.IO.Ovmb.RoundTripWriterLayout
 namespace OVM.Props.C06
 open OVM.Ovmb OVM.Gen.Ovmb Dec
 
-/-- the round-trip statement for every permitted encoding, with the two size bounds under which it holds -/
+/-- the round-trip statement for every permitted encoding.  Hypotheses: `F` is a well-formed writer input, `bytes`
+    is one of its permitted encodings, the target is a polyhedral mesh read without topology check, and the byte
+    string is shorter than 2^64 (the width of the chunk length field). -/
 def RoundtripStatement : Prop :=
   ∀ (cfg : Cfg) (F : File) (bytes : Bytes), WFFile F = true → Encodes bytes F →
-    (cfg.kind = .poly ∧ cfg.topoCheck = false) →
-    bytes.length < 2 ^ 64 → F.faces.length ≤ 16843009 → F.cells.length ≤ 16843009 →
+    (cfg.kind = .poly ∧ cfg.topoCheck = false) → bytes.length < 2 ^ 64 →
     decode cfg bytes = .ok F
 
 /-- **every permitted encoding reads to the same mesh** -/
 theorem permitted_roundtrip : RoundtripStatement := by
-  intro cfg F bytes hwf ⟨L, hval, hb⟩ ⟨hk, ht⟩ hsize hnf hnc
+  intro cfg F bytes hwf ⟨L, hval, hb⟩ ⟨hk, ht⟩ hsize
   subst hb
-  exact decode_encodeWith cfg F hk ht L hwf hval hsize hnf hnc
+  exact decode_encodeWith cfg F hk ht L hwf hval hsize
 
 /-- **the bytes the writer produces are one of the encodings the format description permits** -/
 theorem writer_bytes_permitted (F : File) (hwf : WFFile F = true) : Encodes (encode F) F :=
@@ -115,22 +117,14 @@ theorem write_is_encode (F : File) (out : Bytes) :
 
 /-- **writer round trip**: what the OVMB writer produces for a well-formed mesh reads back as that mesh, for
     every reading configuration that accepts its faces and cells as written -/
-theorem writer_roundtrip (cfg : Cfg) (F : File) (hwf : WFFile F = true) (hacc : Accepts cfg F) (hs : SizeOk F)
-    (hf : ModeFits F.faces) (hc : ModeFits F.cells) : decode cfg (encode F) = .ok F :=
-  decode_encode cfg F hwf hacc hs hf hc
-
-/-- polyhedral target without topology check: every well-formed file is accepted; up to 16 843 009 faces and
-    cells no valence-product condition is needed -/
-theorem writer_roundtrip_poly (cfg : Cfg) (F : File) (hk : cfg.kind = .poly) (ht : cfg.topoCheck = false)
-    (hwf : WFFile F = true) (hs : SizeOk F) (hf : F.faces.length ≤ 16843009) (hc : F.cells.length ≤ 16843009) :
+theorem writer_roundtrip (cfg : Cfg) (F : File) (hwf : WFFile F = true) (hacc : Accepts cfg F) (hs : SizeOk F) :
     decode cfg (encode F) = .ok F :=
-  decode_encode cfg F hwf (accepts_poly cfg F hk ht) hs (modeFits_of_count _ hf) (modeFits_of_count _ hc)
+  decode_encode cfg F hwf hacc hs
 
-/-- the valence-product condition is necessary: when the writer's fixed face valence times the number of faces
-    reaches 2^32 the reader rejects the writer's own file (`uint8_t * uint32_t` in `read_topo_chunk`) -/
-theorem writer_roundtrip_limit (cfg : Cfg) (F : File) (hwf : WFFile F = true) (hacc : Accepts cfg F) (hs : SizeOk F)
-    (hf : ¬ModeFits F.faces) : decode cfg (encode F) = .error (.res .invalidFile) :=
-  decode_encode_overflow cfg F hwf hacc hs hf
+/-- polyhedral target without topology check: every well-formed file is accepted -/
+theorem writer_roundtrip_poly (cfg : Cfg) (F : File) (hk : cfg.kind = .poly) (ht : cfg.topoCheck = false)
+    (hwf : WFFile F = true) (hs : SizeOk F) : decode cfg (encode F) = .ok F :=
+  decode_encode cfg F hwf (accepts_poly cfg F hk ht) hs
 
 /-- the chunk loop over a complete file of well-framed chunks is the payload readers applied in order (each sees
     exactly its chunk's payload), followed by the final checks -/
@@ -144,10 +138,9 @@ theorem chunk_loop_is_sequence (cfg : Cfg) (cs : List ChunkD) (hfit : ∀ c ∈ 
     formed, 440 bytes long, and satisfies every hypothesis of `writer_roundtrip` for a polyhedral read without
     topology check and for a tetrahedral read with topology check -/
 example : decode Example.polyCfg (encode Example.tetFile) = .ok Example.tetFile :=
-  writer_roundtrip_poly _ _ rfl rfl Example.tetFile_wf Example.tetFile_size (by decide) (by decide)
+  writer_roundtrip_poly _ _ rfl rfl Example.tetFile_wf Example.tetFile_size
 example : decode Example.tetCfg (encode Example.tetFile) = .ok Example.tetFile :=
-  writer_roundtrip _ _ Example.tetFile_wf Example.tetFile_accepts Example.tetFile_size Example.tetFile_faces
-    Example.tetFile_cells
+  writer_roundtrip _ _ Example.tetFile_wf Example.tetFile_accepts Example.tetFile_size
 
 example : Encodes (encode Example.tetFile) Example.tetFile := writer_bytes_permitted _ Example.tetFile_wf
 
@@ -158,7 +151,7 @@ example : Encodes (encode Example.tetFile) Example.tetFile := writer_bytes_permi
     explicit padding, a non-mandatory flag — is valid, differs from the writer's bytes, and so reads to the same mesh -/
 example : decode Example.polyCfg (encodeWith Example.altLayout Example.tetFile) = .ok Example.tetFile :=
   permitted_roundtrip _ _ _ Example.tetFile_wf ⟨Example.altLayout, Example.altLayout_valid, rfl⟩ ⟨rfl, rfl⟩
-    (by rw [Example.altLayout_length]; decide) (by decide) (by decide)
+    (by rw [Example.altLayout_length]; decide)
 example : (encodeWith Example.altLayout Example.tetFile).length ≠ (encode Example.tetFile).length := by
   rw [Example.altLayout_length, Example.tetFile_length]; decide
 
